@@ -53,14 +53,18 @@ class AtomTable:
         self.args.append(args)
         return n
 
-    def atom_for(self, a, b, k, r, exact, ub, w, args=None):
+    def atom_for(self, a, b, k, r, exact, ub, w, args=None, thick=None):
         """a, b: relative end vectors (concrete), returns the atom index."""
         if k < 0:
             a, b = b, a
         aa, bb, ab = float(a @ a) * w * w, float(b @ b) * w * w, float(a @ b) * w * w
         if ub == 1 and aa > bb:
             aa, bb = bb, aa
-        return self.lookup([aa, bb, ab, float(r) * w, 1.0 if exact else 0.0, float(ub)], args)
+        # thick: the kernel uses R^2 = rho^2 + a^2 only above the small-radius limit (1e-4 wavelength); which side the radius is on is part
+        # of what the integral is (None: derived from r*w against 2 pi 1e-4, i.e. from the CURRENT wavelength)
+        if thick is None:
+            thick = float(r) * w > 2 * math.pi * 1e-4
+        return self.lookup([aa, bb, ab, float(r) * w, (1.0 if exact else 0.0) + (2.0 if thick else 0.0), float(ub)], args)
 
     def box(self, bound=1.0):
         """z3 constraints: every atom component within [-bound, bound]."""
@@ -86,7 +90,8 @@ def install(M, table, record_order=True):
         for i in range(len(v2)):
             xk = bool(ex[i]) and rr[i] > float(self.srm)
             ai = table.atom_for(v2[i], vv[i], k, rr[i], xk, float(b), w,
-                                args=(v2[i].copy(), vv[i].copy(), k, float(rr[i]), bool(ex[i]), float(b), w))
+                                args=(v2[i].copy(), vv[i].copy(), k, float(rr[i]), bool(ex[i]), float(b), w),
+                                thick=bool(rr[i] > float(self.srm)))          # as integral_i2_i3 would decide it now
             if record_order:
                 table.calls.append((ai, int(n)))
             out[i] = table.atoms[ai] * w
